@@ -150,13 +150,15 @@ func (m *Mutex) Lock() {
 	if m.held && vrt.Running() {
 		panic("vrt: mutex scheduled while held")
 	}
-	m.held = true
+	// the real primitive first, the mirror while it is held: outside a controlled execution the real
+	// goroutines of a set-up history may contend for this mutex for real
 	if !m.real.TryLock() {
 		if vrt.Running() {
 			panic("vrt: model/real divergence: Mutex.Lock would block")
 		}
 		m.real.Lock()
 	}
+	m.held = true
 }
 
 //go:norace
@@ -261,7 +263,9 @@ func (m *RWMutex) RLock() {
 		return
 	}
 	m.real.RLock()
+	passMu.Lock() // several real goroutines may hold the read lock at once: the mirror is shared
 	m.readers++
+	passMu.Unlock()
 }
 
 //go:norace
@@ -275,7 +279,13 @@ func (m *RWMutex) TryRLock() bool {
 	if !m.real.TryRLock() {
 		return false
 	}
-	m.readers++
+	if vrt.Running() {
+		m.readers++
+	} else {
+		passMu.Lock()
+		m.readers++
+		passMu.Unlock()
+	}
 	return true
 }
 
@@ -284,12 +294,19 @@ func (m *RWMutex) RUnlock() {
 	if vrt.Running() {
 		vrt.PointOp(&vrt.Op{Kind: "rwmutex.RUnlock", Obj: unsafe.Pointer(m), Write: false})
 	}
+	if !vrt.Running() {
+		passMu.Lock()
+		defer passMu.Unlock()
+	}
 	if m.readers <= 0 {
 		panic("sync: RUnlock of unlocked RWMutex")
 	}
 	m.readers--
 	m.real.RUnlock()
 }
+
+// passMu guards the mirrors' shared counters outside a controlled execution (real concurrency).
+var passMu sync.Mutex
 
 type rlocker RWMutex
 
@@ -312,6 +329,10 @@ func (w *WaitGroup) zero() bool { return w.n == 0 }
 func (w *WaitGroup) Add(d int) {
 	if vrt.Running() {
 		vrt.PointOp(&vrt.Op{Kind: "waitgroup.Add", Obj: unsafe.Pointer(w), Write: false})
+	}
+	if !vrt.Running() {
+		passMu.Lock() // real goroutines of a set-up history call Done concurrently
+		defer passMu.Unlock()
 	}
 	if w.n+d < 0 {
 		panic("sync: negative WaitGroup counter")
@@ -423,6 +444,7 @@ type Cond struct {
 	L       Locker
 	waiters int
 	signals int
+	real    *sync.Cond // outside a controlled execution the real condition variable does the waiting
 }
 
 func NewCond(l Locker) *Cond { return &Cond{L: l} }
@@ -430,13 +452,25 @@ func NewCond(l Locker) *Cond { return &Cond{L: l} }
 //go:norace
 func (c *Cond) signalled() bool { return c.signals > 0 }
 
+// realCond returns the real condition variable over the same Locker (pass-through mode).
+func (c *Cond) realCond() *sync.Cond {
+	passMu.Lock()
+	defer passMu.Unlock()
+	if c.real == nil {
+		c.real = sync.NewCond(c.L)
+	}
+	return c.real
+}
+
 //go:norace
 func (c *Cond) Wait() {
+	if !vrt.Running() {
+		c.realCond().Wait()
+		return
+	}
 	c.waiters++
 	c.L.Unlock()
-	if vrt.Running() {
-		vrt.PointOp(&vrt.Op{Kind: "cond.Wait", Obj: unsafe.Pointer(c), Write: true, Ready: c.signalled})
-	}
+	vrt.PointOp(&vrt.Op{Kind: "cond.Wait", Obj: unsafe.Pointer(c), Write: true, Ready: c.signalled})
 	c.signals--
 	c.waiters--
 	c.L.Lock()
@@ -444,9 +478,11 @@ func (c *Cond) Wait() {
 
 //go:norace
 func (c *Cond) Signal() {
-	if vrt.Running() {
-		vrt.PointOp(&vrt.Op{Kind: "cond.Signal", Obj: unsafe.Pointer(c), Write: true})
+	if !vrt.Running() {
+		c.realCond().Signal()
+		return
 	}
+	vrt.PointOp(&vrt.Op{Kind: "cond.Signal", Obj: unsafe.Pointer(c), Write: true})
 	if c.waiters > c.signals {
 		c.signals++
 	}
@@ -454,10 +490,11 @@ func (c *Cond) Signal() {
 
 //go:norace
 func (c *Cond) Broadcast() {
-	if vrt.Running() {
-		vrt.PointOp(&vrt.Op{Kind: "cond.Broadcast", Obj: unsafe.Pointer(c), Write: true})
+	if !vrt.Running() {
+		c.realCond().Broadcast()
+		return
 	}
+	vrt.PointOp(&vrt.Op{Kind: "cond.Broadcast", Obj: unsafe.Pointer(c), Write: true})
 	c.signals = c.waiters
 }
 
-// OnceFunc etc. are not modelled: using them fails the build of the check loudly.
